@@ -153,7 +153,7 @@ impl<'a, 'b> Generator<'a, 'b> {
                     "__BLOB{{ {} }}",
                     fields
                         .iter()
-                        .map(|(f, v)| format!("{} = {}", f, self.expand(v)))
+                        .map(|(f, v)| format!("[\"{}\"] = {}", f, self.expand(v)))
                         .collect::<Vec<_>>()
                         .join(", ")
                 ),
@@ -251,7 +251,9 @@ impl<'a, 'b> Generator<'a, 'b> {
                     write!(self.out, "__CRASH(\"{}\")()", msg);
                 }
 
-                IR::Access(t, a, f) => iis!(self, t, "{}.{}", self.expand(a), f),
+                // Field names are Sylt identifiers and may be Lua keywords (`repeat`, `until`,
+                // ...), which `a.name` and `{ name = .. }` do not accept: index by string.
+                IR::Access(t, a, f) => iis!(self, t, "{}[\"{}\"]", self.expand(a), f),
 
                 IR::Copy(t, a) => {
                     if self.usage_count.get(t).unwrap_or(&0) > &0 {
@@ -281,7 +283,7 @@ impl<'a, 'b> Generator<'a, 'b> {
                     if self.usage_count.get(t).unwrap_or(&0) > &0 {
                         let t = self.expand(t);
                         let c = self.expand(c);
-                        write!(self.out, "{}.{} = {}", t, f, c);
+                        write!(self.out, "{}[\"{}\"] = {}", t, f, c);
                     }
                 }
 
